@@ -39,6 +39,9 @@ pub struct VGenOpts {
     pub matrices: bool,
     pub structs: bool,
     pub enums: bool,
+    /// only the forms of the Lean vector layer: casts, swizzles, constructors, component-wise operators, `?:`, scalar
+    /// sub-expressions; no assignment / increment / call / comma on vectors, no subscripts
+    pub pure: bool,
 }
 
 pub struct VGen<'r> {
@@ -177,7 +180,7 @@ impl<'r> VGen<'r> {
                         }
                         idx.push(c);
                     }
-                    if n == 1 && self.rng.chance(1, 3) {
+                    if n == 1 && !self.opts.pure && self.rng.chance(1, 3) {
                         out.push(format!("{}[{}]", path, idx[0]));
                     } else {
                         let s: String = idx.iter().map(|i| COMP[*i]).collect();
@@ -233,7 +236,7 @@ impl<'r> VGen<'r> {
             return self.rng.pick(&ps).clone();
         }
         // an element of an array / a component of a vector under a dynamic subscript
-        if n == 1 && self.rng.chance(1, 4) {
+        if n == 1 && !self.opts.pure && self.rng.chance(1, 4) {
             let cands: Vec<(String, usize)> = self
                 .scope_vars(scope)
                 .filter_map(|v| match &v.ty {
@@ -245,6 +248,20 @@ impl<'r> VGen<'r> {
             if !cands.is_empty() {
                 let (name, len) = self.rng.pick(&cands).clone();
                 return format!("{}[{}]", name, self.subscript(len, scope));
+            }
+        }
+        // nothing of exactly this type in scope: convert a variable explicitly (keeps the inputs in play)
+        if self.rng.chance(2, 3) {
+            let cands: Vec<(String, T, usize)> = self
+                .scope_vars(scope)
+                .filter_map(|v| match &v.ty {
+                    G::N(vt, vn) if *vn == 1 || *vn >= n => Some((v.name.clone(), *vt, *vn)),
+                    _ => None,
+                })
+                .collect();
+            if !cands.is_empty() {
+                let (name, _, _) = self.rng.pick(&cands).clone();
+                return format!("(({}){})", self.tname(&G::N(t, n)), name);
             }
         }
         self.literal(t, n)
@@ -294,7 +311,7 @@ impl<'r> VGen<'r> {
         }
         let d = d - 1;
         let is_int = t == T::Int || t == T::Uint;
-        match self.rng.below(20) {
+        match self.rng.below(if self.opts.pure { 15 } else { 20 }) {
             // component-wise arithmetic, the right operand sometimes a scalar (replicated) or a longer vector (truncated)
             0 | 1 | 2 if t != T::Bool => {
                 let op = if is_int { *self.rng.pick(&["+", "-", "*", "/", "%", "&", "|", "^"]) } else { *self.rng.pick(&["+", "-", "*", "/"]) };
@@ -798,6 +815,27 @@ impl<'r> VGen<'r> {
             G::En => "EA".to_string(),
             _ => String::new(),
         }
+    }
+
+    /// `T f(params) { return E; }` with numeric `in` parameters only (the shape the Lean vector model answers)
+    pub fn expression_function(&mut self) -> String {
+        let np = 1 + self.rng.below(4) as usize;
+        let mut scope = Vec::new();
+        let mut decl = Vec::new();
+        for k in 0..np {
+            // at least one vector and a bool scalar now and then
+            let g = if k == 0 { G::N(self.kind(false), 2 + self.rng.below(3) as usize) } else { self.numeric() };
+            let n = self.fresh("p");
+            decl.push(self.decl(&g, &n));
+            scope.push(VarInfo { name: n, ty: g, assignable: false });
+        }
+        let ret = self.numeric();
+        let (t, n) = match &ret {
+            G::N(t, n) => (*t, *n),
+            _ => (T::Float, 3),
+        };
+        let e = self.conv(t, n, self.opts.max_depth, &scope);
+        format!("{} f1({})\n{{\n    return {};\n}}\n", self.tname(&ret), decl.join(", "), e)
     }
 
     pub fn program(&mut self) -> String {
